@@ -52,6 +52,18 @@ CHECKS = {
  "C14": ("exploration", "deterministic enumeration of malformed inputs executed in watchdog-supervised worker sub-processes",
    "header prefixes of every length, every header field x boundary values singly and in pairs, all feature bits, extension lengths 0..100 and at buffer/cluster ends, backing-name boundaries, every leading L1/L2/reftable entry x 20 bad encodings, corrupted compressed payloads, on 4 base images; open + read/get_mapping/check/write/flush must return Ok or Err: no panic, abort, hang, or allocation out of proportion; unsupported encodings refused at open",
    "worker isolation + counting allocator; simulated file refuses to grow beyond 64 MiB", "5 C14"),
+ "C09": ("exploration", "bounded-exhaustive enumeration of builder images (class x boundary product) against the builder's ground truth; formatter output against the independent checker",
+   "1.3k (quick) foreign images over cluster size x refcount width x version x cluster kinds x placement x short L1 x backing x parameters x ragged end: get_mapping and read_at of every probe cluster equal the ground truth; format_qcow2 over sizes x geometries is valid and its derived geometry matches the specification's formulas",
+   "SpecKit builder validated by the SpecKit checker before use", "5 C09"),
+ "C12": ("model_checking", "explicit-state BFS from images one allocation short of each kind of metadata growth + crash-image enumeration with post-crash continuation",
+   "histories of writes/discards/flush/sync/reopen from images at the refblock edge, the refcount-table edge and with a short L1 table; C01 C02 C03 C16 oracles on every transition, C04 C05 oracles on every crash image of the growth windows, and every crash image at the refblock edge is re-opened and written until the allocator crosses the next refblock boundary",
+   "refcount-table growth and in-place L1 extension are listed known findings, so only new-refblock creation is verified beyond them", "5 C12"),
+ "C19": ("exploration", "complete enumeration of request sequences up to length 2 (3) over a 27-request alphabet on three real backends (5 variants) and SimIo",
+   "results, read data, final file bytes and length identical across tokio, sync (buffered, O_DIRECT), io_uring (buffered, O_DIRECT) and the SimIo model; 10 guest histories through the whole library on each backend yield identical guest content",
+   "ext4 root file system of the sandbox", "5 C19"),
+ "C20": ("exploration", "enumeration of CLI inputs: raw sizes x contents, format parameters, consistent images x every leak position",
+   "rqcow2 convert raw->qcow2->raw reproduces the zero-padded input and terminates; rqcow2 format output passes the independent checker; Qcow2Dev::check() and rqcow2 check accept every consistent image and reject each copy with one free cluster's refcount raised",
+   "rqcow2 built from /repo by the check", "5 C20"),
 }
 NA = {}
 def main():
@@ -73,7 +85,7 @@ def main():
     na=[{"property_id":p,"reason":NA.get(p,"check not built yet in this round (machinery under construction); see DESIGN.md section 5 for the planned bounded-exhaustive formulation")} for p in ALL if p not in CHECKS]
     m={
       "version":1,
-      "setup_cmd":"cd /verif/qmc && mkdir -p /verif/target /verif/evidence /verif/replays && CARGO_NET_OFFLINE=true cargo build --release --offline",
+      "setup_cmd":"cd /verif/qmc && mkdir -p /verif/target /verif/evidence /verif/replays && CARGO_NET_OFFLINE=true cargo build --release --offline && CARGO_TARGET_DIR=/verif/target/rqcow2 CARGO_NET_OFFLINE=true cargo build --release --offline --bin rqcow2 --manifest-path /repo/Cargo.toml",
       "hooks":{"guard":"cargo feature verif-hooks (cfg(feature = \"verif-hooks\"))","enable":"the harness crate /verif/qmc depends on /repo with features=[\"verif-hooks\"]","baseline_off_cmd":"/verif/scripts/baseline_off.sh /repo","source_commits":hooks,"add_only":True},
       "engines":[{"name":"qmc","path":"/verif/qmc","serves_properties":sorted(CHECKS.keys()),"kind_free_text":"Rust harness: simulated backend (SimIo) + explicit-state BFS over histories (HIST), deviation-bounded schedule exploration under a deterministic executor (SCHED), crash-image and fault enumeration over the request log (CRASH/FAULT), bounded-exhaustive input enumeration (ENUM); all on the real library code"}],
       "checks":checks,
